@@ -50,6 +50,12 @@ NOTES = """Interpretation choices (read generously, see BUILDING.md rule 1):
   NOT observable for a workbook: Fragments, Lines, Paragraphs, ReadingOrder, Analyze, Headings, Lists, Blocks, Elements,
   IsCharacterLevel, IsMultiColumn (PDF only: they return an error), Reader.Metadata / Cell.RawValue / Formula /
   StyleIndex / Type (no displayed value), tabula.FromReader (PDF readers only).
+* value alphabet: string values may end in a character the Markdown view has to escape or fold: | \ * _ ` < or a line
+  break (token + character + "z"). The displayed value is that exact string in the grid, Tables(), the text and the
+  model; the Markdown views show it up to Markdown's own escaping (backslash before ASCII punctuation, entities, a line
+  break folded to a space) and no view may change what the reader holds. Sheets with a line break inside a value are
+  not asserted in the tab-separated text views (the line structure is ambiguous there). Tabs and leading / trailing
+  spaces are not generated.
 * ODT/DOCX/PPTX table spans are not part of C17's statement (spreadsheets only) and are not checked here.
 * generated files are valid ECMA-376: <row> without r (optional attribute) but cells with full
   references; rows and cells in any order (the schema does not order them); inline strings with
